@@ -59,7 +59,7 @@ var c12Classes = []string{"command", "label", "key", "envname", "envval", "plugi
 	"unkkey", "unkval", "matrixval", "adjwith", "sigvalue"}
 
 // c12Doc builds the step document from class -> string assignments.
-func c12Doc(assign map[string]string, p map[string]string, rng *rand.Rand) (string, bool) {
+func c12Doc(assign map[string]string, p map[string]string, rng *rand.Rand, zerodim int) (string, bool) {
 	S := func(class string) string {
 		if s, ok := assign[class]; ok {
 			return s
@@ -99,6 +99,10 @@ func c12Doc(assign map[string]string, p map[string]string, rng *rand.Rand) (stri
 		}
 		step = append(step, [2]any{"matrix", m})
 	}
+	if !hasMatrix && zerodim > 0 {
+		// an empty permutation against a matrix that EXISTS but has no dimensions: still "changes nothing"
+		step = append(step, [2]any{"matrix", []any{nil, orderedJSON{}, orderedJSON{{"setup", orderedJSON{}}}, orderedJSON{{"setup", orderedJSON{}}, {"adjustments", []any{}}}}[zerodim]})
+	}
 	rng.Shuffle(len(step), func(i, j int) { step[i], step[j] = step[j], step[i] })
 	return string(asciiJSON(obj{"steps": []any{orderedJSON(step)}})), hasMatrix
 }
@@ -125,7 +129,12 @@ func c12Event(c obj) obj {
 	if r, ok := c["rot"].(json.Number); ok {
 		rot, _ = r.Int64()
 	}
-	src, _ := c12Doc(assign, p, newRand(rot, "c12doc"))
+	zerodim := 0
+	if z, ok := c["zerodim"].(json.Number); ok {
+		z64, _ := z.Int64()
+		zerodim = int(z64)
+	}
+	src, _ := c12Doc(assign, p, newRand(rot, "c12doc"), zerodim)
 	ev := obj{"c": c, "p": c["p"], "strings": strs}
 	pn, msg := guarded(func() {
 		pl, err := pipeline.Parse(strings.NewReader(src))
@@ -216,7 +225,7 @@ func runC12(args []string) {
 // c12RandomCase: every class gets a random mix of tokens, near-misses and text;
 // dimension names over the documented alphabet; values that look like tokens.
 func c12RandomCase(rng *rand.Rand) obj {
-	dimPool := []string{"a", "b", "os", "a.b", "a-b", "_", "go_1.22", "X9"}
+	dimPool := []string{"a", "b", "os", ".os", ".", "a.b", "a-b", "_", "go_1.22", "X9", "-", "os."}
 	var dims []string
 	switch rng.Intn(5) {
 	case 0:
@@ -272,7 +281,11 @@ func c12RandomCase(rng *rand.Rand) obj {
 			assign[cl] = mk(cl)
 		}
 	}
-	return obj{"assign": assign, "p": p}
+	out := obj{"assign": assign, "p": p}
+	if len(dims) == 0 {
+		out["zerodim"] = rng.Intn(4) // 0: no matrix at all; 1-3: a matrix without dimensions
+	}
+	return out
 }
 
 func normalizeList(l []any) []any {
